@@ -17,6 +17,12 @@ fn keys() -> Vec<(String, PrivateKey)> {
             if let Ok(k) = PrivateKey::from_pkcs8(&der, s) { v.push((n.into(), k)); }
         }
     }
+    for (f, s, n) in [("rsa-2048-e2147483651.pk8.der", SignatureScheme::RsaSsaPssSha256, "rsa2048-e80000003"), ("rsa-2048-e4294967297.pk8.der", SignatureScheme::RsaSsaPssSha512, "rsa2048-e100000001"),
+                      ("rsa-3072.pk8.der", SignatureScheme::RsaSsaPssSha256, "rsa3072"), ("ec-2.pk8.der", SignatureScheme::EcdsaP256Sha256, "ecdsa-p256-2")] {
+        if let Ok(der) = std::fs::read(format!("/verif/replay/fixtures/{}", f)) {
+            if let Ok(k) = PrivateKey::from_pkcs8(&der, s) { v.push((n.into(), k)); }
+        }
+    }
     v
 }
 
@@ -200,11 +206,11 @@ pub fn run_c11(r: &mut Report) {
     let k = key(1);
     // every printable ASCII character, DEL, and representatives of the Latin-1, BMP, line-separator and astral ranges on their own
     let mut sweep: Vec<String> = (0x20u32..=0x7f).filter_map(char::from_u32).map(|c| format!("x{}y", c)).collect();
-    for c in ['\u{80}', '\u{9f}', '\u{a0}', '\u{ff}', '\u{2028}', '\u{2029}', '\u{d7ff}', '\u{e000}', '\u{fffd}', '\u{ffff}', '\u{10000}', '\u{10ffff}'] { sweep.push(format!("x{}y", c)); }
+    for c in ['\u{80}', '\u{85}', '\u{9f}', '\u{a0}', '\u{ad}', '\u{ff}', '\u{301}', '\u{378}', '\u{200b}', '\u{200d}', '\u{2028}', '\u{2029}', '\u{d7ff}', '\u{e000}', '\u{fe0f}', '\u{feff}', '\u{fffd}', '\u{ffff}', '\u{10000}', '\u{e0001}', '\u{10ffff}'] { sweep.push(format!("x{}y", c)); }
     let all: Vec<String> = texts().into_iter().map(|t| t.to_string()).chain(sweep.into_iter()).collect();
     for t in all.iter().map(|t| t.as_str()) {
         // reference bytes for the link built by meta(t): build them from the canonical JSON by re-encoding every string token
-        let md = meta(t);
+        let md = rich(t, false).into_iter().next().unwrap().1;   // the text in every string VALUE and in every object KEY (paths, env names, byproduct fields)
         let mb = Metablock::new(md.clone(), &[&k]).unwrap();
         let v = serde_json::to_value(&md).unwrap();
         fn olpc(v: &serde_json::Value, out: &mut String) {
